@@ -217,8 +217,31 @@ func drawC09(t *rapid.T) c09Case {
 		bs = c.Opts.blockSize()
 	}
 	n := sizeAround(t, bs, maxLen)
-	c.Zero = rapid.SampledFrom([]string{"", "", "", "block", "content"}).Draw(t, "zero")
+	c.Zero = rapid.SampledFrom([]string{"", "", "", "block", "content", "hc"}).Draw(t, "zero")
 	switch c.Zero {
+	case "hc":
+		// a content size whose descriptor has a header checksum byte of 0 (a rare value, like the zero hashes)
+		c.Opts.Size, c.Opts.Legacy = true, false
+		flg := byte(0x40 | 0x20 | 0x08)
+		if c.Opts.BlockSum {
+			flg |= 0x10
+		}
+		if c.Opts.ContentSum {
+			flg |= 0x04
+		}
+		start := rapid.IntRange(1, 60000).Draw(t, "hc.start")
+		n = 0
+		for k := start; k < start+4000; k++ {
+			d := []byte{flg, byte(c.Opts.BS << 4), byte(k), byte(k >> 8), byte(k >> 16), 0, 0, 0, 0, 0}
+			if byte(ref.XXH32(d, 0)>>8) == 0 {
+				n = k
+				break
+			}
+		}
+		if n == 0 {
+			n = start
+		}
+		c.Data = drawFrameData(t, n)
 	case "block":
 		// an incompressible (stored raw) first block whose XXH32 is 0: length a multiple of 4 with length%16 >= 4
 		if n < 4 {
@@ -331,6 +354,9 @@ func runC09(c c09Case, rec *stat.Rec) *stat.Failure {
 	if zeroed && c.Zero == "content" && c.Opts.ContentSum && !c.Opts.Legacy {
 		rec.Class("frame/zero-hash-content+contentsum")
 	}
+	if !fr.Legacy && fr.HasSize && len(z) > 14 && z[14] == 0 {
+		rec.Class("frame/header-checksum-byte==0")
+	}
 	if c.Opts.Legacy && raw == 0 && len(data) > 0 {
 		rec.Class("frame/legacy-nonempty")
 	}
@@ -373,7 +399,9 @@ func TestC09Pinned(t *testing.T) {
 	}
 	// legacy: empty, small, incompressible exactly 8 MiB, incompressible > 8.36 MB (two blocks), compressible multi-block
 	leg := wopts{BS: 7, Conc: 1, Legacy: true}
-	for _, segs := range [][]gen.Seg{{}, {{K: "text", N: 100, S: 1, P: 4}}, {{K: "rand", N: 8 << 20, S: 9}}, {{K: "rand", N: 8<<20 + 70000, S: 10}}, {{K: "text", N: 8<<20 + 1, S: 2, P: 4}}} {
+	for _, segs := range [][]gen.Seg{{}, {{K: "text", N: 100, S: 1, P: 4}}, {{K: "rand", N: 8 << 20, S: 9}}, {{K: "rand", N: 8<<20 + 70000, S: 10}}, {{K: "text", N: 8<<20 + 1, S: 2, P: 4}},
+		// incompressible blocks whose worst-case compressed size straddles the 8 MiB buffer
+		{{K: "rand", N: 8<<20 - 1, S: 11}}, {{K: "rand", N: 8355712, S: 12}}, {{K: "rand", N: 8355711, S: 13}}, {{K: "rand", N: 8<<20 + 8360000, S: 14}}, {{K: "rand", N: 8300000, S: 15}}} {
 		pinned(t, "C09", "C09/conformance", mk(leg, segs, "write", ""), runC09)
 		pinned(t, "C09", "C09/conformance", mk(leg, segs, "readfrom", ""), runC09)
 	}
@@ -382,7 +410,7 @@ func TestC09Pinned(t *testing.T) {
 func TestC09(t *testing.T) {
 	rec := stat.For("C09")
 	rec.SetRule(c09Rule)
-	rec.Require("nontrivial", "writer/reused-after-2-frames", "frame/zero-hash-block+blocksum", "frame/zero-hash-content+contentsum", "frame/raw+compressed-blocks", "frame/legacy-nonempty", "entry/creader", "entry/readfrom", "input/empty", "input/k*bs")
+	rec.Require("nontrivial", "frame/header-checksum-byte==0", "writer/reused-after-2-frames", "frame/zero-hash-block+blocksum", "frame/zero-hash-content+contentsum", "frame/raw+compressed-blocks", "frame/legacy-nonempty", "entry/creader", "entry/readfrom", "input/empty", "input/k*bs")
 	checkProp(t, "C09", "C09/conformance", pick(12000, 150000), drawC09, runC09)
 }
 
